@@ -494,7 +494,7 @@ pub fn run(args: &Args) {
         let (csvs, texts, exacts) = gen_case(&mut rng, n, 0);
         run_case(&mut sink, &csvs, &texts, &exacts, true, false);
     }
-    let n = args.n(260, 6000);
+    let n = args.n(400, 6000);
     for _ in 0..n {
         let layers = match rng.below(20) {
             0..=7 => 1,
